@@ -564,6 +564,26 @@ func (rp *refPeer) openFirst(b []byte) (key [32]byte, ok bool) {
 	return key, false
 }
 
+// openRespPayload: what a server that piggybacks on its open-session response puts there. It
+// consumes the SOCKS request from reqBuf (if complete) and returns reply + first echo bytes.
+func (rp *refPeer) openRespPayload(reqBuf *[]byte, replied *bool) []byte {
+	if !rp.cfg.OpenRespPayload || *replied {
+		return nil
+	}
+	b := *reqBuf
+	if len(b) < 5 || len(b) < 7+int(b[4]) {
+		return nil
+	}
+	b = b[7+int(b[4]):]
+	out := []byte{5, 0, 0, 1, 0, 0, 0, 0, 0, 0}
+	k := min(len(b), 1024-len(out))
+	out = append(out, b[:k]...)
+	*reqBuf = b[k:]
+	*replied = true
+	rp.w.probe("ref-server-open-response-carries-payload")
+	return out
+}
+
 func (rp *refPeer) serveTCP(c net.Conn) {
 	defer c.Close()
 	var first []byte
@@ -612,11 +632,11 @@ func (rp *refPeer) serveTCP(c net.Conn) {
 			switch sg.Meta.Type {
 			case refproto.TypeOpenReq:
 				rp.handshake = true
-				if !send(refproto.Meta{Type: refproto.TypeOpenResp, TimestampMin: uint32(ts / 60), SessionID: sg.Meta.SessionID, Seq: seq}, nil, refproto.EncodeOpts{Padding2: rp.pad(rp.cfg.Pad2, i)}) {
+				reqBuf = append(reqBuf, sg.Payload...)
+				if !send(refproto.Meta{Type: refproto.TypeOpenResp, TimestampMin: uint32(ts / 60), SessionID: sg.Meta.SessionID, Seq: seq}, rp.openRespPayload(&reqBuf, &replied), refproto.EncodeOpts{Padding2: rp.pad(rp.cfg.Pad2, i)}) {
 					return
 				}
 				seq++
-				reqBuf = append(reqBuf, sg.Payload...)
 			case refproto.TypeDataC2S, refproto.TypeDataC2SLE:
 				reqBuf = append(reqBuf, sg.Payload...)
 			case refproto.TypeCloseReq:
@@ -768,7 +788,7 @@ func (rp *refPeer) serveUDP(pc net.PacketConn, done chan struct{}) {
 				rp.handshake = true
 				nextRecv++
 				reqBuf = append(reqBuf, sg.Payload...)
-				send(refproto.Meta{Type: refproto.TypeOpenResp, SessionID: sid, Seq: seq}, nil, refproto.EncodeOpts{Padding2: rp.pad(rp.cfg.Pad2, i)}, true)
+				send(refproto.Meta{Type: refproto.TypeOpenResp, SessionID: sid, Seq: seq}, rp.openRespPayload(&reqBuf, &replied), refproto.EncodeOpts{Padding2: rp.pad(rp.cfg.Pad2, i)}, true)
 				seq++
 			}
 		case refproto.TypeDataC2S, refproto.TypeDataC2SLE:
